@@ -260,6 +260,8 @@ def run(prog: Program, chk: Check):
             nm_ = path_of(ex)
             if nm_ is None or isinstance(ex, ast.Constant):
                 continue
+            if "." in nm_ and nm_.startswith("self.header"):
+                continue  # the received header itself (same exemption as for a local that names it)
             if "." in nm_:
                 L.bad(fkey(f, f"fresh-{role}:{norm(call)}"), where(f, call), f"{f.qual} passes the shared object `{nm_}` as {role}: a nested forward (failure notice, log record, CLIENT_CLOSED) overwrites it mid fan-out")
                 continue
